@@ -31,6 +31,7 @@ func initPair() {
 	RegisterNativeClass("Std::Pair", "value.PairClass")
 
 	PairIteratorClass = NewClass()
+	PairIteratorClass.IncludeMixin(ResettableIteratorBaseMixin)
 	PairClass.AddConstantString("Iterator", Ref(PairIteratorClass))
 	RegisterNativeClass("Std::Pair::Iterator", "value.PairIteratorClass")
 }
